@@ -117,7 +117,7 @@ Conf ==
                                       e.timeout, e.super, e.rep, e.freq, e.total, e.state, e.thr,
                                       e.rresp, e.rstate, e.rtgt)
                          /\ e.id = nctx + 1
-            ELSE Rej(CanModCreate(e.signer, e.svc, e.provs, e.capok, e.inok, e.timeout, e.thr))
+            ELSE Rej(CanModCreate(e.module, e.signer, e.svc, e.provs, e.capok, e.inok, e.timeout, e.thr))
       [] e.name = "Pause" -> IF e.ok THEN Pause(e.signer, e.id) ELSE Rej(CanPause(e.signer, e.id))
       [] e.name = "Start" -> IF e.ok THEN Start(e.signer, e.id) ELSE Rej(CanStart(e.signer, e.id))
       [] e.name = "Kill"  -> IF e.ok THEN Kill(e.signer, e.id)  ELSE Rej(CanKill(e.signer, e.id))
@@ -299,7 +299,7 @@ Holds(p) ==
       [] p = "C16" -> Inv_C16' /\ Step_C16
       [] p = "C17" -> QueriesOK(LAMBDA q : TRUE)
       [] p = "C18" -> NoAnomaly("C18") /\ Step_C18 /\ QueryIdsOK
-      [] p = "C19" -> Step_C19 /\ GenesisOK
+      [] p = "C19" -> Step_C19 /\ GenesisOK /\ (ev'.name = "Restart" => ev'.ok)
       [] p = "C20" -> Step_C20
       [] OTHER -> TRUE
 
